@@ -54,7 +54,13 @@ Record cfg := mkCfg {
   c_tok : tokc;
   c_kw : list (str * Z);      (* TokenLiteral(i), i for i = KeywordFrom .. KeywordTo, in this order *)
   c_letters : ranges;         (* unicode.Letter above Latin-1 *)
-  c_digits : ranges }.        (* unicode.Digit (Nd) above Latin-1 *)
+  c_digits : ranges;          (* unicode.Digit (Nd) above Latin-1 *)
+  c_private : N * N }.        (* (yyPrivate, len(yyTok2)): the private-use code points that are the parser's token numbers *)
+
+(* const UnknownCharacter = unicode.MaxRune + 1: the token of a stray character whose code point is a token number *)
+Definition k_unknown_char : Z := 1114112%Z.
+Definition is_token_number (c : cfg) (ch : N) : bool :=
+  (fst (c_private c) <=? ch) && (ch <? fst (c_private c) + snd (c_private c)).
 
 Record modes := mkModes { m_prepared : bool; m_ansi : bool }.
 
@@ -504,6 +510,7 @@ Definition scan_body (c : cfg) (m : modes) (h : hst) (s0 : pst) : body_result :=
       else if (ch =? 96) || (m_ansi m && (ch =? 34)) then
         let '(raw, term, s3) := scan_string ch s2 in
         BTok (tk (k_identifier (c_tok c)) (unescape_identifier raw ch) true (string_err term)) h s3
+      else if is_token_number c ch then BTok (tk k_unknown_char [ch] false None) h s2
       else BTok (tk (Z.of_N ch) [ch] false None) h s2
   end.
 
